@@ -1,211 +1,212 @@
 /-
-`Inv0`: the invariant of the loop's use of the state machine (`lstep`) that needs no ghost state:
-id counter below the limit, window, ids in range, well-formed `pending`.
-Holds along every run that avoids `unsafeConnack` (#17; vacuous for v4).
+`Inv0`: the invariant of the loop's use of the state machine (`lstep`) that holds on EVERY run of
+the MQTT 3.1.1 client and on every MQTT 5 run in which no CONNACK lowers the limit under what is
+in use (`unsafeConnack`): id counter, window (counter + `pending` + parked publish ≤ limit), ids
+in range, well-formed `pending`. No assumption on the order of failures and replays.
 -/
 import Proofs.Lemmas.ClientClean
 import Proofs.Lemmas.ClientC10
 namespace Client
 open Client.Spec
 
-/-- a request `clean()` may have returned -/
+/-- a request `clean()` may have returned: a stored publish (numbered), a pending release, or the
+    publish that was parked on a collision (unnumbered) -/
 def PendOK (s : State) : Request → Prop
-  | .publish p => p.qos ≠ 0 ∧ 1 ≤ p.pkid ∧ p.pkid ≤ s.maxInflight ∧ p.alias = none
+  | .publish p => p.qos ≠ 0 ∧ p.pkid ≤ s.maxInflight ∧ p.alias = none
   | .pubrel i => 1 ≤ i ∧ i ≤ s.maxInflight
   | _ => False
+
+def colCount (s : State) : Nat := if s.collision.isSome then 1 else 0
 
 structure Inv0 (l : LState) : Prop where
   sinv : SInv l.st
   maxPos : 1 ≤ l.st.maxInflight
   maxLe : l.st.maxInflight ≤ l.st.upperLimit
   upLe : l.st.upperLimit ≤ u16Max
-  lastPkid : l.st.lastPkid < l.st.maxInflight
-  window : l.st.inflight + l.pending.length ≤ l.st.maxInflight
+  pk : nextPkidBase l.st < l.st.maxInflight
+  window : l.st.inflight + l.pending.length + colCount l.st ≤ l.st.maxInflight
   slotLe : ∀ (i : Nat) (p : Pub), l.st.outgoingPub[i]? = some (some p) → 1 ≤ i ∧ i ≤ l.st.maxInflight ∧ p.alias = none
   relLe : ∀ i : Nat, relContains l.st i = true → 1 ≤ i ∧ i ≤ l.st.maxInflight
   colLe : ∀ c : Pub, l.st.collision = some c → 1 ≤ c.pkid ∧ c.pkid ≤ l.st.maxInflight ∧ c.alias = none
   pendWF : ∀ r ∈ l.pending, PendOK l.st r
-  pendNodup : (pubIds l.pending).Nodup
-  pendFree : ∀ p : Pub, .publish p ∈ l.pending → l.st.outgoingPub[p.pkid]? = some none
 
 theorem Inv0.new (ver : Version) (max : Nat) (m : Bool) (h1 : 1 ≤ max) (h2 : max ≤ u16Max) :
     Inv0 (LState.new ver max m) := by
-  refine ⟨SInv.new _ _ _, h1, Nat.le_refl _, h2, h1, by simp [LState.new, State.new], ?_, ?_, ?_, ?_, ?_, ?_⟩
+  refine ⟨SInv.new _ _ _, h1, Nat.le_refl _, h2, ?_, by simp [LState.new, State.new, colCount], ?_, ?_, ?_, ?_⟩
+  · cases ver <;> simp [LState.new, State.new, nextPkidBase] <;> omega
   · intro i p h; simp [LState.new, State.new, List.getElem?_replicate] at h
   · intro i h; rw [relContains_eq] at h; simp [LState.new, State.new, List.getElem?_replicate] at h
   · intro c h; simp [LState.new, State.new] at h
   · intro r h; simp [LState.new] at h
-  · simp [LState.new, pubIds]
-  · intro p h; simp [LState.new] at h
 
-/-! the part of `Inv0` about the state alone, closed under changes that leave the relevant fields -/
-
-/-- fields `Inv0` reads besides `events` -/
+/-- fields `Inv0` reads -/
 def Frame0 (s s' : State) : Prop :=
-  SFrame s s' ∧ s'.maxInflight = s.maxInflight ∧ s'.lastPkid = s.lastPkid
+  SFrame s s' ∧ s'.maxInflight = s.maxInflight ∧ s'.lastPkid = s.lastPkid ∧ s'.ver = s.ver
 
-theorem Inv0.congr {s s' : State} {pd : List Request} (h : Inv0 ⟨s, pd⟩) (f : Frame0 s s') :
-    Inv0 ⟨s', pd⟩ := by
-  obtain ⟨⟨f1, f2, f3, f4, f5, f6⟩, f7, f8⟩ := f
-  obtain ⟨a1, a3, a4, a5, a6, a7, a8, a9, a10, a11, a12, a13⟩ := h
-  refine ⟨a1.congr ⟨f1, f2, f3, f4, f5, f6⟩, ?_, ?_, ?_, ?_, ?_, ?_, ?_, ?_, ?_, a12, ?_⟩
+theorem nextPkidBase_congr {s s' : State} (h1 : s'.maxInflight = s.maxInflight) (h2 : s'.lastPkid = s.lastPkid)
+    (h3 : s'.ver = s.ver) : nextPkidBase s' = nextPkidBase s := by
+  unfold nextPkidBase; rw [h1, h2, h3]
+
+theorem colCount_congr {s s' : State} (h : s'.collision = s.collision) : colCount s' = colCount s := by
+  unfold colCount; rw [h]
+
+theorem pendOK_congr {s s' : State} (h : s'.maxInflight = s.maxInflight) (r : Request) (hr : PendOK s r) : PendOK s' r := by
+  cases r <;> simp_all [PendOK]
+
+theorem Inv0.congr {s s' : State} {pd : List Request} (h : Inv0 ⟨s, pd⟩) (f : Frame0 s s') : Inv0 ⟨s', pd⟩ := by
+  obtain ⟨⟨f1, f2, f3, f4, f5, f6⟩, f7, f8, f9⟩ := f
+  obtain ⟨a1, a3, a4, a5, a6, a7, a8, a9, a10, a11⟩ := h
+  refine ⟨a1.congr ⟨f1, f2, f3, f4, f5, f6⟩, ?_, ?_, ?_, ?_, ?_, ?_, ?_, ?_, ?_⟩
   all_goals simp only at *
   · rw [f7]; exact a3
   · rw [f7, f3]; exact a4
   · rw [f3]; exact a5
-  · rw [f7, f8]; exact a6
-  · rw [f7, f5]; exact a7
+  · rw [nextPkidBase_congr f7 f8 f9, f7]; exact a6
+  · rw [f7, f5, colCount_congr f4]; exact a7
   · rw [f7, f1]; exact a8
   · intro i hi; rw [f7]; apply a9; unfold relContains at *; rw [← f2]; exact hi
   · rw [f7, f4]; exact a10
-  · intro r hr
-    have := a11 r hr
-    cases r <;> simp_all [PendOK]
-  · rw [f1]; exact a13
+  · intro r hr; exact pendOK_congr f7 r (a11 r hr)
 
 theorem drain_frame0 (s : State) : Frame0 s (drainEvents s) :=
-  ⟨⟨rfl, rfl, rfl, rfl, rfl, rfl⟩, rfl, rfl⟩
+  ⟨⟨rfl, rfl, rfl, rfl, rfl, rfl⟩, rfl, rfl, rfl⟩
 
 theorem pushOut_frame0 (s : State) (o : Outgoing) : Frame0 s (s.pushOut o) :=
-  ⟨⟨rfl, rfl, rfl, rfl, rfl, rfl⟩, rfl, rfl⟩
+  ⟨⟨rfl, rfl, rfl, rfl, rfl, rfl⟩, rfl, rfl, rfl⟩
 
-theorem Frame0.trans {a b c : State} (h1 : Frame0 a b) (h2 : Frame0 b c) : Frame0 a c := by
-  obtain ⟨⟨f1, f2, f3, f4, f5, f6⟩, f7, f8⟩ := h1
-  obtain ⟨⟨g1, g2, g3, g4, g5, g6⟩, g7, g8⟩ := h2
-  exact ⟨⟨g1.trans f1, g2.trans f2, g3.trans f3, g4.trans f4, g5.trans f5, g6.trans f6⟩, g7.trans f7, g8.trans f8⟩
-
-theorem Frame0.refl (a : State) : Frame0 a a := ⟨⟨rfl, rfl, rfl, rfl, rfl, rfl⟩, rfl, rfl⟩
-
+theorem Frame0.refl (a : State) : Frame0 a a := ⟨⟨rfl, rfl, rfl, rfl, rfl, rfl⟩, rfl, rfl, rfl⟩
 
 theorem nextPkidSt_frame (s : State) : SFrame s (nextPkidSt s) ∧ (nextPkidSt s).maxInflight = s.maxInflight ∧
-    (nextPkidSt s).events = s.events := by
+    (nextPkidSt s).events = s.events ∧ (nextPkidSt s).ver = s.ver := by
   unfold nextPkidSt SFrame; split <;> simp
 
+theorem nextPkidBase_nextPkidSt (s : State) (hm : 1 ≤ s.maxInflight) (hb : nextPkidBase s < s.maxInflight) :
+    nextPkidBase (nextPkidSt s) < s.maxInflight := by
+  cases hv : s.ver with
+  | v4 =>
+    by_cases hw : nextPkidBase s + 1 = s.maxInflight
+    · have : nextPkidSt s = { s with lastPkid := 0 } := by simp [nextPkidSt, nextPkidWraps, nextPkidVal, hv, hw]
+      rw [this]; simp [nextPkidBase, hv]; omega
+    · have : nextPkidSt s = { s with lastPkid := nextPkidBase s + 1 } := by simp [nextPkidSt, nextPkidWraps, nextPkidVal, hv, hw]
+      rw [this]; simp only [nextPkidBase, hv] at hb hw ⊢; omega
+  | v5 =>
+    by_cases hw : nextPkidBase s + 1 ≥ s.maxInflight
+    · have : nextPkidSt s = { s with lastPkid := 0 } := by simp [nextPkidSt, nextPkidWraps, nextPkidVal, hv, hw]
+      rw [this]; simp only [nextPkidBase, hv]; split <;> omega
+    · have : nextPkidSt s = { s with lastPkid := nextPkidBase s + 1 } := by simp [nextPkidSt, nextPkidWraps, nextPkidVal, hv, hw]
+      rw [this]
+      have hb' : nextPkidBase s + 1 < s.maxInflight := by omega
+      generalize nextPkidBase s = b at *
+      simp only [nextPkidBase, hv]; split <;> omega
+
 theorem Inv0.nextPkid {s : State} {pd : List Request} (h : Inv0 ⟨s, pd⟩) :
-    nextPkidPanics s = false ∧ 1 ≤ nextPkidVal s ∧ nextPkidVal s ≤ s.maxInflight ∧ (nextPkidSt s).lastPkid < s.maxInflight := by
-  have h1 := h.lastPkid; have h2 := h.maxLe; have h3 := h.upLe; have h4 := h.maxPos
+    nextPkidPanics s = false ∧ 1 ≤ nextPkidVal s ∧ nextPkidVal s ≤ s.maxInflight ∧
+    nextPkidBase (nextPkidSt s) < s.maxInflight := by
+  have h1 := h.pk; have h2 := h.maxLe; have h3 := h.upLe; have h4 := h.maxPos
   simp only at h1 h2 h3 h4
-  refine ⟨by simp [nextPkidPanics, u16Max] at *; omega, by simp [nextPkidVal], by simp [nextPkidVal]; omega, ?_⟩
-  unfold nextPkidSt; split <;> simp <;> omega
+  refine ⟨by simp [nextPkidPanics]; omega, by simp [nextPkidVal], by simp [nextPkidVal]; omega,
+    nextPkidBase_nextPkidSt s h4 h1⟩
 
 /-- advancing the id counter keeps `Inv0` -/
 theorem Inv0.nextPkidSt {s : State} {pd : List Request} (h : Inv0 ⟨s, pd⟩) : Inv0 ⟨nextPkidSt s, pd⟩ := by
-  obtain ⟨⟨f1, f2, f3, f4, f5, f6⟩, f7, f8⟩ := nextPkidSt_frame s
+  obtain ⟨⟨f1, f2, f3, f4, f5, f6⟩, f7, f8, f9⟩ := nextPkidSt_frame s
   have hl := h.nextPkid.2.2.2
-  obtain ⟨a1, a3, a4, a5, a6, a7, a8, a9, a10, a11, a12, a13⟩ := h
-  refine ⟨a1.congr ⟨f1, f2, f3, f4, f5, f6⟩, ?_, ?_, ?_, ?_, ?_, ?_, ?_, ?_, ?_, a12, ?_⟩
+  obtain ⟨a1, a3, a4, a5, a6, a7, a8, a9, a10, a11⟩ := h
+  refine ⟨a1.congr ⟨f1, f2, f3, f4, f5, f6⟩, ?_, ?_, ?_, ?_, ?_, ?_, ?_, ?_, ?_⟩
   all_goals simp only at *
   · rw [f7]; exact a3
   · rw [f7, f3]; exact a4
   · rw [f3]; exact a5
   · rw [f7]; exact hl
-  · rw [f7, f5]; exact a7
+  · rw [f7, f5, colCount_congr f4]; exact a7
   · rw [f7, f1]; exact a8
   · intro i hi; rw [f7]; apply a9; unfold relContains at *; rw [← f2]; exact hi
   · rw [f7, f4]; exact a10
-  · intro r hr
-    have := a11 r hr
-    cases r <;> simp_all [PendOK]
-  · rw [f1]; exact a13
-
-/-- storing publish `p` in the empty slot `p.pkid` while one request leaves `pending` or the gate is open -/
-theorem Inv0.store {s : State} {pd pd' : List Request} (h : Inv0 ⟨s, pd⟩) (p : Pub)
-    (hq : p.qos ≠ 0) (h1 : 1 ≤ p.pkid) (h2 : p.pkid ≤ s.maxInflight) (ha : p.alias = none)
-    (hslot : s.outgoingPub[p.pkid]? = some none)
-    (hw : s.inflight + 1 + pd'.length ≤ s.maxInflight)
-    (hsub : ∀ r ∈ pd', r ∈ pd) (hnd : (pubIds pd').Nodup)
-    (hfree : ∀ q : Pub, .publish q ∈ pd' → q.pkid ≠ p.pkid) :
-    Inv0 ⟨{ s with outgoingPub := s.outgoingPub.set p.pkid (some p), inflight := s.inflight + 1 }, pd'⟩ := by
-  obtain ⟨a1, a3, a4, a5, a6, a7, a8, a9, a10, a11, a12, a13⟩ := h
-  simp only at *
-  refine ⟨?_, a3, a4, a5, a6, hw, ?_, a9, a10, ?_, hnd, ?_⟩
-  · obtain ⟨b1, b2, b3, b4, b5, b6⟩ := a1
-    refine ⟨by simpa using b1, b2, ?_, b4, ?_, b6⟩
-    · intro i q hi
-      simp only [List.getElem?_set] at hi
-      split at hi
-      · split at hi
-        · simp at hi; subst hi; rename_i h1 _; exact ⟨h1, hq⟩
-        · simp at hi
-      · exact b3 i q hi
-    · simp only [occ_set_some _ _ _ hslot]; omega
-  · intro i q hi
-    simp only [List.getElem?_set] at hi
-    split at hi
-    · split at hi
-      · simp at hi; subst hi; rename_i h1 _; subst h1; exact ⟨h1, h2, ha⟩
-      · simp at hi
-    · exact a8 i q hi
-  · intro r hr
-    have := a11 r (hsub r hr)
-    cases r <;> simp_all [PendOK]
-  · intro q hq'
-    have := a13 q (hsub _ hq')
-    simp only [List.getElem?_set]
-    rw [if_neg (Ne.symm (hfree q hq'))]
-    exact this
-
-
-theorem getElem?_lt_of_some {α} {l : List α} {i : Nat} {a : α} (h : l[i]? = some a) : i < l.length := by
-  rcases Nat.lt_or_ge i l.length with h' | h'
-  · exact h'
-  · simp [List.getElem?_eq_none h'] at h
+  · intro r hr; exact pendOK_congr f7 r (a11 r hr)
 
 theorem relContains_set (s : State) (i j : Nat) (b : Bool) (hi : i < s.outgoingRel.length) :
     (s.outgoingRel.set i b)[j]?.getD false = if i = j then b else relContains s j := by
   unfold relContains
   simp only [List.getElem?_set]
   split
-  · simp
+  · simp [hi]
   · rfl
+
+theorem storePub_frame (s : State) (p : Pub) :
+    (storePub s p).outgoingRel = s.outgoingRel ∧ (storePub s p).collision = s.collision ∧
+    (storePub s p).maxInflight = s.maxInflight ∧ (storePub s p).upperLimit = s.upperLimit ∧
+    (storePub s p).lastPkid = s.lastPkid ∧ (storePub s p).ver = s.ver ∧ (storePub s p).inflight = s.inflight + 1 ∧
+    (storePub s p).outgoingPub = s.outgoingPub.set p.pkid (some p) := ⟨rfl, rfl, rfl, rfl, rfl, rfl, rfl, rfl⟩
+
+theorem occ_set_le (l : List (Option Pub)) (i : Nat) (p : Pub) : occ (l.set i (some p)) ≤ occ l + 1 := by
+  cases hsl : l[i]? with
+  | none => rw [List.set_eq_of_length_le (by simpa using hsl)]; omega
+  | some v =>
+    cases v with
+    | none => rw [occ_set_some _ _ _ hsl]; omega
+    | some y => rw [occ_set_same _ _ y p hsl]; omega
+
+/-- storing over whatever the slot holds keeps the structural facts -/
+theorem SInv.storePubAny {s : State} (h : SInv s) (p : Pub) (hq : p.qos ≠ 0) : SInv (Client.storePub s p) := by
+  obtain ⟨a, b, c, d, e', f⟩ := h
+  refine ⟨by simpa [Client.storePub] using a, b, by simpa [Client.storePub] using c, ?_, e', ?_⟩
+  · intro i q hi
+    simp only [Client.storePub, List.getElem?_set] at hi
+    split at hi
+    · split at hi
+      · simp at hi; subst hi; rename_i h1 _; exact ⟨h1, hq⟩
+      · simp at hi
+    · exact d i q hi
+  · have := occ_set_le s.outgoingPub p.pkid p
+    simp only [Client.storePub]; omega
+
+/-- storing publish `p` in slot `p.pkid`; `pd'` is what is left of `pending` -/
+theorem Inv0.store {s : State} {pd pd' : List Request} (h : Inv0 ⟨s, pd⟩) (p : Pub)
+    (hq : p.qos ≠ 0) (h1 : 1 ≤ p.pkid) (h2 : p.pkid ≤ s.maxInflight) (ha : p.alias = none)
+    (hw : s.inflight + 1 + pd'.length + colCount s ≤ s.maxInflight)
+    (hsub : ∀ r ∈ pd', r ∈ pd) : Inv0 ⟨storePub s p, pd'⟩ := by
+  have hs := h.sinv.storePubAny p hq
+  obtain ⟨a1, a3, a4, a5, a6, a7, a8, a9, a10, a11⟩ := h
+  simp only at *
+  refine ⟨hs, a3, a4, a5, a6, ?_, ?_, a9, a10, ?_⟩
+  · show s.inflight + 1 + pd'.length + colCount s ≤ s.maxInflight
+    exact hw
+  · intro i q hi
+    simp only [Client.storePub, List.getElem?_set] at hi
+    split at hi
+    · split at hi
+      · simp at hi; subst hi; rename_i h1' _; subst h1'; exact ⟨h1, h2, ha⟩
+      · simp at hi
+    · exact a8 i q hi
+  · intro r hr; exact pendOK_congr rfl r (a11 r (hsub r hr))
 
 /-- parking a publish on a collision -/
 theorem Inv0.park {s : State} {pd pd' : List Request} (h : Inv0 ⟨s, pd⟩) (p : Pub)
     (hq : p.qos ≠ 0) (h1 : 1 ≤ p.pkid) (h2 : p.pkid ≤ s.maxInflight) (ha : p.alias = none)
-    (hlen : pd'.length ≤ pd.length) (hsub : ∀ r ∈ pd', r ∈ pd) (hnd : (pubIds pd').Nodup) :
+    (hw : s.inflight + pd'.length + 1 ≤ s.maxInflight) (hsub : ∀ r ∈ pd', r ∈ pd) :
     Inv0 ⟨{ s with collision := some p }, pd'⟩ := by
-  obtain ⟨a1, a3, a4, a5, a6, a7, a8, a9, a10, a11, a12, a13⟩ := h
+  obtain ⟨a1, a3, a4, a5, a6, a7, a8, a9, a10, a11⟩ := h
   simp only at *
-  refine ⟨?_, a3, a4, a5, a6, by (try simp only); omega, a8, a9, ?_, ?_, hnd, ?_⟩
+  refine ⟨?_, a3, a4, a5, a6, by simp [colCount]; omega, a8, a9, ?_, ?_⟩
   · obtain ⟨b1, b2, b3, b4, b5, b6⟩ := a1
-    exact ⟨b1, b2, b3, by intro c hc; simp at hc; subst hc; exact hq, b5, b6⟩
+    exact ⟨b1, b2, b3, b4, by intro c hc; simp at hc; subst hc; exact hq, b6⟩
   · intro c hc; simp at hc; subst hc; exact ⟨h1, h2, ha⟩
-  · intro r hr
-    have := a11 r (hsub r hr)
-    cases r <;> simp_all [PendOK]
-  · intro q hq'; exact a13 q (hsub _ hq')
+  · intro r hr; exact pendOK_congr rfl r (a11 r (hsub r hr))
 
 /-- an acknowledgement frees slot `i` -/
 theorem Inv0.free {s : State} {pd : List Request} (h : Inv0 ⟨s, pd⟩) (i : Nat) (x : Pub)
     (hslot : s.outgoingPub[i]? = some (some x)) (dec : Bool) :
     Inv0 ⟨{ s with outgoingPub := s.outgoingPub.set i none, inflight := if dec then s.inflight - 1 else s.inflight }, pd⟩ := by
-  have hlt := getElem?_lt_of_some hslot
-  have hocc := occ_set_none _ _ _ hslot
-  obtain ⟨a1, a3, a4, a5, a6, a7, a8, a9, a10, a11, a12, a13⟩ := h
+  have hs := h.sinv.freeSlot i x hslot dec
+  obtain ⟨a1, a3, a4, a5, a6, a7, a8, a9, a10, a11⟩ := h
   simp only at *
-  refine ⟨?_, a3, a4, a5, a6, by (try simp only); split <;> omega, ?_, a9, a10, ?_, a12, ?_⟩
-  · obtain ⟨b1, b2, b3, b4, b5, b6⟩ := a1
-    refine ⟨by simpa using b1, b2, ?_, b4, ?_, b6⟩
-    · intro j q hj
-      simp only [List.getElem?_set] at hj
-      split at hj
-      · first | (split at hj <;> simp at hj) | simp at hj
-      · exact b3 j q hj
-    · simp only; split <;> omega
+  refine ⟨hs, a3, a4, a5, a6, by simp only [colCount] at *; split <;> omega, ?_, a9, a10, ?_⟩
   · intro j q hj
     simp only [List.getElem?_set] at hj
     split at hj
     · first | (split at hj <;> simp at hj) | simp at hj
     · exact a8 j q hj
-  · intro r hr
-    have := a11 r hr
-    cases r <;> simp_all [PendOK]
-  · intro q hq'
-    have := a13 q hq'
-    simp only [List.getElem?_set]
-    split
-    · simp
-    · exact this
+  · intro r hr; exact pendOK_congr rfl r (a11 r hr)
 
 /-- PUBREC: the slot is freed and the release bit set, counter untouched -/
 theorem Inv0.moveToRel {s : State} {pd : List Request} (h : Inv0 ⟨s, pd⟩) (i : Nat) (x : Pub)
@@ -214,17 +215,17 @@ theorem Inv0.moveToRel {s : State} {pd : List Request} (h : Inv0 ⟨s, pd⟩) (i
   have hlt := getElem?_lt_of_some hslot
   have hocc := occ_set_none _ _ _ hslot
   have hi := h.slotLe i x hslot
-  obtain ⟨a1, a3, a4, a5, a6, a7, a8, a9, a10, a11, a12, a13⟩ := h
+  obtain ⟨a1, a3, a4, a5, a6, a7, a8, a9, a10, a11⟩ := h
   simp only at *
   have hrl : i < s.outgoingRel.length := by have := a1.lenPub; have := a1.lenRel; omega
-  refine ⟨?_, a3, a4, a5, a6, a7, ?_, ?_, a10, ?_, a12, ?_⟩
+  refine ⟨?_, a3, a4, a5, a6, a7, ?_, ?_, a10, ?_⟩
   · obtain ⟨b1, b2, b3, b4, b5, b6⟩ := a1
-    refine ⟨by simpa using b1, by simpa using b2, ?_, b4, ?_, b6⟩
+    refine ⟨by simpa using b1, by simpa using b2, b3, ?_, b5, ?_⟩
     · intro j q hj
       simp only [List.getElem?_set] at hj
       split at hj
       · first | (split at hj <;> simp at hj) | simp at hj
-      · exact b3 j q hj
+      · exact b4 j q hj
     · simp only
       cases hb : s.outgoingRel[i]? with
       | none => simp at hb; omega
@@ -244,28 +245,20 @@ theorem Inv0.moveToRel {s : State} {pd : List Request} (h : Inv0 ⟨s, pd⟩) (i
     split at hj
     · rename_i hij; subst hij; exact ⟨hi.1, hi.2.1⟩
     · exact a9 j hj
-  · intro r hr
-    have := a11 r hr
-    cases r <;> simp_all [PendOK]
-  · intro q hq'
-    have := a13 q hq'
-    simp only [List.getElem?_set]
-    split
-    · simp
-    · exact this
+  · intro r hr; exact pendOK_congr rfl r (a11 r hr)
 
 /-- a retransmitted PUBREL sets the release bit and counts -/
 theorem Inv0.relSetInc {s : State} {pd pd' : List Request} (h : Inv0 ⟨s, pd⟩) (i : Nat)
     (h1 : 1 ≤ i) (h2 : i ≤ s.maxInflight)
-    (hw : s.inflight + 1 + pd'.length ≤ s.maxInflight)
-    (hsub : ∀ r ∈ pd', r ∈ pd) (hnd : (pubIds pd').Nodup) :
+    (hw : s.inflight + 1 + pd'.length + colCount s ≤ s.maxInflight)
+    (hsub : ∀ r ∈ pd', r ∈ pd) :
     Inv0 ⟨{ s with outgoingRel := s.outgoingRel.set i true, inflight := s.inflight + 1 }, pd'⟩ := by
-  obtain ⟨a1, a3, a4, a5, a6, a7, a8, a9, a10, a11, a12, a13⟩ := h
+  obtain ⟨a1, a3, a4, a5, a6, a7, a8, a9, a10, a11⟩ := h
   simp only at *
   have hrl : i < s.outgoingRel.length := by have := a1.lenRel; omega
-  refine ⟨?_, a3, a4, a5, a6, hw, a8, ?_, a10, ?_, hnd, ?_⟩
+  refine ⟨?_, a3, a4, a5, a6, by simp only [colCount] at *; omega, a8, ?_, a10, ?_⟩
   · obtain ⟨b1, b2, b3, b4, b5, b6⟩ := a1
-    refine ⟨b1, by simpa using b2, b3, b4, ?_, b6⟩
+    refine ⟨b1, by simpa using b2, b3, b4, b5, ?_⟩
     simp only
     cases hb : s.outgoingRel[i]? with
     | none => simp at hb; omega
@@ -280,24 +273,20 @@ theorem Inv0.relSetInc {s : State} {pd pd' : List Request} (h : Inv0 ⟨s, pd⟩
     split at hj
     · rename_i hij; subst hij; exact ⟨h1, h2⟩
     · exact a9 j hj
-  · intro r hr
-    have := a11 r (hsub r hr)
-    cases r <;> simp_all [PendOK]
-  · intro q hq'; exact a13 q (hsub _ hq')
+  · intro r hr; exact pendOK_congr rfl r (a11 r (hsub r hr))
 
-/-- PUBCOMP clears the release bit -/
+/-- PUBCOMP clears the release bit and counts down -/
 theorem Inv0.relClear {s : State} {pd : List Request} (h : Inv0 ⟨s, pd⟩) (i : Nat)
-    (hbit : relContains s i = true) (dec : Bool) :
-    Inv0 ⟨{ s with outgoingRel := s.outgoingRel.set i false, inflight := if dec then s.inflight - 1 else s.inflight }, pd⟩ := by
+    (hbit : relContains s i = true) :
+    Inv0 ⟨{ s with outgoingRel := s.outgoingRel.set i false, inflight := s.inflight - 1 }, pd⟩ := by
   have hb := (relContains_eq s i).mp hbit
   have hrl := getElem?_lt_of_some hb
   have hcnt := relCount_set_false _ _ hb
-  obtain ⟨a1, a3, a4, a5, a6, a7, a8, a9, a10, a11, a12, a13⟩ := h
+  obtain ⟨a1, a3, a4, a5, a6, a7, a8, a9, a10, a11⟩ := h
   simp only at *
-  refine ⟨?_, a3, a4, a5, a6, by (try simp only); split <;> omega, a8, ?_, a10, ?_, a12, a13⟩
+  refine ⟨?_, a3, a4, a5, a6, by simp only [colCount] at *; omega, a8, ?_, a10, ?_⟩
   · obtain ⟨b1, b2, b3, b4, b5, b6⟩ := a1
-    refine ⟨b1, by simpa using b2, b3, b4, ?_, b6⟩
-    simp only; split <;> omega
+    exact ⟨b1, by simpa using b2, b3, b4, b5, by simp only; omega⟩
   · intro j hj
     unfold relContains at hj
     simp only at hj
@@ -305,67 +294,57 @@ theorem Inv0.relClear {s : State} {pd : List Request} (h : Inv0 ⟨s, pd⟩) (i 
     split at hj
     · simp at hj
     · exact a9 j hj
-  · intro r hr
-    have := a11 r hr
-    cases r <;> simp_all [PendOK]
+  · intro r hr; exact pendOK_congr rfl r (a11 r hr)
 
-/-- the parked publish is taken out of the collision slot -/
-theorem Inv0.clearCol {s : State} {pd : List Request} (h : Inv0 ⟨s, pd⟩) (n : Nat) :
-    Inv0 ⟨{ s with collision := none, collisionPingCount := n }, pd⟩ := by
-  obtain ⟨a1, a3, a4, a5, a6, a7, a8, a9, a10, a11, a12, a13⟩ := h
+/-- `pending` loses elements -/
+theorem Inv0.shrink {s : State} {pd pd' : List Request} (h : Inv0 ⟨s, pd⟩) (hl : pd'.length ≤ pd.length)
+    (hsub : ∀ r ∈ pd', r ∈ pd) : Inv0 ⟨s, pd'⟩ := by
+  obtain ⟨a1, a3, a4, a5, a6, a7, a8, a9, a10, a11⟩ := h
   simp only at *
-  refine ⟨?_, a3, a4, a5, a6, a7, a8, a9, by simp, ?_, a12, a13⟩
-  · obtain ⟨b1, b2, b3, b4, b5, b6⟩ := a1
-    exact ⟨b1, b2, b3, by simp, b5, b6⟩
-  · intro r hr
-    have := a11 r hr
-    cases r <;> simp_all [PendOK]
+  exact ⟨a1, a3, a4, a5, a6, by show s.inflight + pd'.length + colCount s ≤ s.maxInflight; omega, a8, a9, a10, fun r hr => a11 r (hsub r hr)⟩
 
-theorem Inv0.setLastPuback {s : State} {pd : List Request} (h : Inv0 ⟨s, pd⟩) (i : Nat) (hi : i ≤ s.upperLimit) :
-    Inv0 ⟨{ s with lastPuback := i }, pd⟩ := by
-  obtain ⟨a1, a3, a4, a5, a6, a7, a8, a9, a10, a11, a12, a13⟩ := h
+theorem Inv0.clearCol {s : State} {pd : List Request} (h : Inv0 ⟨s, pd⟩) :
+    Inv0 ⟨{ s with collision := none, collisionPingCount := 0 }, pd⟩ := by
+  obtain ⟨a1, a3, a4, a5, a6, a7, a8, a9, a10, a11⟩ := h
   simp only at *
-  refine ⟨?_, a3, a4, a5, a6, a7, a8, a9, a10, ?_, a12, a13⟩
+  refine ⟨?_, a3, a4, a5, a6, by simp only [colCount] at *; simp; split at a7 <;> omega, a8, a9, by simp, ?_⟩
   · obtain ⟨b1, b2, b3, b4, b5, b6⟩ := a1
-    exact ⟨b1, b2, b3, b4, b5, hi⟩
-  · intro r hr
-    have := a11 r hr
-    cases r <;> simp_all [PendOK]
+    exact ⟨b1, b2, b3, b4, by simp, b6⟩
+  · intro r hr; exact pendOK_congr rfl r (a11 r hr)
 
+/-! ### effect equations -/
 
-/-! ### effect equations of the outgoing handlers (used by every invariant) -/
+theorem aliasTooLarge_none (s : State) (p : Pub) (ha : p.alias = none) : aliasTooLarge s p = false := by
+  unfold aliasTooLarge; rw [ha]; cases s.ver <;> rfl
 
-theorem eff_publishTail (s : State) (p : Pub) (ha : p.alias = none) :
-    publishTail s p = (s.pushOut (.publish p.pkid), .ok (some (.publish p))) := by
-  unfold publishTail; rw [ha]; cases s.ver <;> rfl
-
-theorem eff_publishWithId_store (s : State) (p : Pub) (ha : p.alias = none)
-    (hslot : s.outgoingPub[p.pkid]? = some none) (hinf : s.inflight < u16Max) :
-    publishWithId s p =
-      ({ s with outgoingPub := s.outgoingPub.set p.pkid (some p), inflight := s.inflight + 1 }.pushOut (.publish p.pkid),
-        .ok (some (.publish p))) := by
-  unfold publishWithId
-  rw [hslot]
-  simp only
-  rw [if_neg (by omega), eff_publishTail _ _ ha]
-
-theorem eff_publishWithId_park (s : State) (p x : Pub) (hslot : s.outgoingPub[p.pkid]? = some (some x)) :
-    publishWithId s p = ({ s with collision := some p }.pushOut (.awaitAck p.pkid), .ok none) := by
-  unfold publishWithId; rw [hslot]
-
-theorem eff_publish_fresh (s : State) (q t : Nat) (hq : q ≠ 0) (hp : nextPkidPanics s = false) :
-    handleOutgoing s (.publish { qos := q, pkid := 0, tag := t }) =
-      publishWithId (nextPkidSt s) { qos := q, pkid := nextPkidVal s, tag := t } := by
-  simp [handleOutgoing, outgoingPublish, hq, hp]
+theorem eff_publish_fresh (s : State) (p : Pub) (ha : p.alias = none) (hq : p.qos ≠ 0) (hid : p.pkid = 0)
+    (hp : nextPkidPanics s = false) :
+    handleOutgoing s (.publish p) = publishWithId (nextPkidSt s) { p with pkid := nextPkidVal s } := by
+  simp [handleOutgoing, outgoingPublish, aliasTooLarge_none s p ha, hq, hid, hp]
 
 theorem eff_publish_qos0 (s : State) (t : Nat) :
     handleOutgoing s (.publish { qos := 0, pkid := 0, tag := t }) =
       (s.pushOut (.publish 0), .ok (some (.publish { qos := 0, pkid := 0, tag := t }))) := by
-  simp [handleOutgoing, outgoingPublish, eff_publishTail]
+  simp [handleOutgoing, outgoingPublish, publishTail, aliasTooLarge]
 
-theorem eff_publish_replay (s : State) (p : Pub) (hq : p.qos ≠ 0) (hid : p.pkid ≠ 0) :
+theorem eff_publish_replay (s : State) (p : Pub) (ha : p.alias = none) (hq : p.qos ≠ 0) (hid : p.pkid ≠ 0) :
     handleOutgoing s (.publish p) = publishWithId s p := by
-  simp [handleOutgoing, outgoingPublish, hq, hid]
+  simp [handleOutgoing, outgoingPublish, aliasTooLarge_none s p ha, hq, hid]
+
+theorem eff_publishWithId_store (s : State) (p : Pub) (hslot : s.outgoingPub[p.pkid]? = some none)
+    (hrel : relContains s p.pkid = false) (hinf : s.inflight < u16Max) :
+    publishWithId s p = ((storePub s p).pushOut (.publish p.pkid), .ok (some (.publish p))) := by
+  unfold publishWithId
+  rw [hslot]
+  simp only [hrel, Option.isSome_none, Bool.or_self, Bool.false_eq_true, if_false, publishTail]
+  rw [if_neg (by omega)]
+
+theorem eff_publishWithId_park (s : State) (p : Pub) (slot : Option Pub) (hslot : s.outgoingPub[p.pkid]? = some slot)
+    (hbusy : slot.isSome = true ∨ relContains s p.pkid = true) :
+    publishWithId s p = ({ s with collision := some p }.pushOut (.awaitAck p.pkid), .ok none) := by
+  unfold publishWithId; rw [hslot]
+  simp only
+  rw [if_pos (by rcases hbusy with h | h <;> simp [h])]
 
 theorem eff_pubrel_replay (s : State) (i : Nat) (hi : i ≠ 0) (hlt : i < s.outgoingRel.length) (hinf : s.inflight < u16Max) :
     handleOutgoing s (.pubrel i) =
@@ -382,40 +361,61 @@ theorem Inv0.pushOut {s : State} {pd : List Request} (h : Inv0 ⟨s, pd⟩) (o :
 theorem Inv0.drain {s : State} {pd : List Request} (h : Inv0 ⟨s, pd⟩) : Inv0 ⟨drainEvents s, pd⟩ :=
   h.congr (drain_frame0 s)
 
-theorem Inv0.slot_cases {s : State} {pd : List Request} (h : Inv0 ⟨s, pd⟩) (i : Nat) (hi : i ≤ s.maxInflight) :
-    s.outgoingPub[i]? = some none ∨ ∃ x, s.outgoingPub[i]? = some (some x) := by
+theorem Inv0.pushEv {s : State} {pd : List Request} (h : Inv0 ⟨s, pd⟩) (e : Event) : Inv0 ⟨s.pushEv e, pd⟩ :=
+  h.congr ⟨⟨rfl, rfl, rfl, rfl, rfl, rfl⟩, rfl, rfl, rfl⟩
+
+theorem Inv0.slot_some {s : State} {pd : List Request} (h : Inv0 ⟨s, pd⟩) (i : Nat) (hi : i ≤ s.maxInflight) :
+    ∃ slot, s.outgoingPub[i]? = some slot := by
   have h1 := h.sinv.lenPub; have h2 := h.maxLe
   simp only at h1 h2
   have hlt : i < s.outgoingPub.length := by omega
-  rw [List.getElem?_eq_getElem hlt]
-  cases s.outgoingPub[i] with
-  | none => exact Or.inl rfl
-  | some x => exact Or.inr ⟨x, rfl⟩
+  exact ⟨_, List.getElem?_eq_getElem hlt⟩
+
+/-- `outgoing_publish` once the id is fixed: stored, parked, or (never, see the no-panic theorem)
+    refused -/
+theorem Inv0.publishWithId {s : State} {pd pd' : List Request} (h : Inv0 ⟨s, pd⟩) (p : Pub)
+    (hq : p.qos ≠ 0) (h1 : 1 ≤ p.pkid) (h2 : p.pkid ≤ s.maxInflight) (ha : p.alias = none)
+    (hw : s.inflight + pd'.length + 1 + colCount s ≤ s.maxInflight) (hl : pd'.length ≤ pd.length)
+    (hsub : ∀ r ∈ pd', r ∈ pd) : Inv0 ⟨(publishWithId s p).1, pd'⟩ := by
+  unfold Client.publishWithId
+  obtain ⟨slot, hslot⟩ := h.slot_some p.pkid h2
+  rw [hslot]
+  simp only
+  split
+  · exact (h.park p hq h1 h2 ha (by omega) hsub).pushOut _
+  · split
+    · exact h.shrink hl hsub
+    · exact (h.store p hq h1 h2 ha (by omega) hsub).pushOut _
+
+/-- a request with a fresh id: user request through the open gate, or the replay of the unnumbered
+    publish -/
+theorem Inv0.publishFresh {s : State} {pd pd' : List Request} (h : Inv0 ⟨s, pd⟩) (p : Pub)
+    (hq : p.qos ≠ 0) (hid : p.pkid = 0) (ha : p.alias = none)
+    (hw : s.inflight + pd'.length + 1 + colCount s ≤ s.maxInflight) (hl : pd'.length ≤ pd.length)
+    (hsub : ∀ r ∈ pd', r ∈ pd) : Inv0 ⟨(handleOutgoing s (.publish p)).1, pd'⟩ := by
+  obtain ⟨hp, hv1, hv2, _⟩ := h.nextPkid
+  rw [eff_publish_fresh s p ha hq hid hp]
+  have h1 := h.nextPkidSt
+  obtain ⟨⟨f1, f2, f3, f4, f5, f6⟩, f7, f8, f9⟩ := nextPkidSt_frame s
+  exact h1.publishWithId _ hq hv1 (by rw [f7]; exact hv2) ha (by rw [f5, f7, colCount_congr f4]; exact hw) hl hsub
+
+/-- what the open gate says -/
+theorem gate_open {s : State} (hg : selectEnabled s [] = true) : s.inflight < s.maxInflight ∧ s.collision = none := by
+  simp only [selectEnabled, pendingReady, windowOpen, List.isEmpty_nil, Bool.true_and, Bool.false_or,
+    Bool.and_eq_true, Bool.not_eq_true', decide_eq_false_iff_not, ge_iff_le, Nat.not_le] at hg
+  exact ⟨hg.1, by cases hc : s.collision <;> simp_all⟩
 
 /-- a user request taken through the open gate -/
 theorem Inv0.user {s : State} (h : Inv0 ⟨s, []⟩) (u : UserReq) (hg : selectEnabled s [] = true) :
     Inv0 ⟨(handleOutgoing s u.toRequest).1, []⟩ := by
-  have hgate : s.inflight < s.maxInflight ∧ s.collision = none := by
-    simp [selectEnabled] at hg
-    exact ⟨hg.1, by cases hc : s.collision <;> simp_all⟩
+  have hgate := gate_open hg
   obtain ⟨hp, hv1, hv2, hv3⟩ := h.nextPkid
-  have hup := h.upLe; have hml := h.maxLe
-  simp only at hup hml
   cases u with
   | publish q t =>
     simp only [UserReq.toRequest]
     by_cases hq : q = 0
     · subst hq; rw [eff_publish_qos0]; exact h.pushOut _
-    · rw [eff_publish_fresh s q t hq hp]
-      have h1 := h.nextPkidSt
-      obtain ⟨⟨f1, f2, f3, f4, f5, f6⟩, f7, f8⟩ := nextPkidSt_frame s
-      rcases h1.slot_cases (nextPkidVal s) (by rw [f7]; exact hv2) with hs | ⟨x, hs⟩
-      · rw [eff_publishWithId_store _ _ rfl hs (by rw [f5]; omega)]
-        apply Inv0.pushOut
-        exact h1.store _ hq hv1 (by rw [f7]; exact hv2) rfl hs (by simp; rw [f5, f7]; omega) (by simp) (by simp [pubIds]) (by simp)
-      · rw [eff_publishWithId_park _ _ x hs]
-        apply Inv0.pushOut
-        exact h1.park _ hq hv1 (by rw [f7]; exact hv2) rfl (Nat.le_refl _) (by simp) (by simp [pubIds])
+    · exact h.publishFresh _ hq rfl rfl (by simp [colCount, hgate.2]; omega) (Nat.le_refl _) (fun r hr => hr)
   | subscribe n =>
     simp only [UserReq.toRequest, handleOutgoing, outgoingSubscribe]
     split
@@ -428,51 +428,32 @@ theorem Inv0.user {s : State} (h : Inv0 ⟨s, []⟩) (u : UserReq) (hg : selectE
   | puback i => exact h.pushOut _
   | pubrec i => exact h.pushOut _
 
-
-theorem pubIds_cons_publish (p : Pub) (l : List Request) : pubIds (.publish p :: l) = p.pkid :: pubIds l := by
-  simp [pubIds]
-
-theorem pubIds_cons_pubrel (i : Nat) (l : List Request) : pubIds (.pubrel i :: l) = pubIds l := by
-  simp [pubIds]
-
-/-- facts about the head of `pending` that every invariant needs -/
-theorem Inv0.pend_publish {s : State} {p : Pub} {rest : List Request} (h : Inv0 ⟨s, .publish p :: rest⟩) :
-    p.qos ≠ 0 ∧ 1 ≤ p.pkid ∧ p.pkid ≤ s.maxInflight ∧ p.alias = none ∧ s.outgoingPub[p.pkid]? = some none ∧
-    s.inflight < u16Max ∧ (∀ q : Pub, .publish q ∈ rest → q.pkid ≠ p.pkid) := by
-  have h1 := h.pendWF (.publish p) (by simp)
-  have h2 := h.pendFree p (by simp)
-  have h3 := h.window; have h4 := h.maxLe; have h5 := h.upLe
-  have h6 := h.pendNodup
-  simp only [PendOK, List.length_cons, pubIds_cons_publish, List.nodup_cons] at h1 h2 h3 h4 h5 h6
-  refine ⟨h1.1, h1.2.1, h1.2.2.1, h1.2.2.2, h2, by omega, ?_⟩
-  intro q hq heq
-  exact h6.1 ((mem_pubIds _ _).mpr ⟨q, hq, heq⟩)
-
-theorem Inv0.pend_pubrel {s : State} {i : Nat} {rest : List Request} (h : Inv0 ⟨s, .pubrel i :: rest⟩) :
-    1 ≤ i ∧ i ≤ s.maxInflight ∧ i < s.outgoingRel.length ∧ s.inflight < u16Max := by
-  have h1 := h.pendWF (.pubrel i) (by simp)
-  have h3 := h.window; have h4 := h.maxLe; have h5 := h.upLe; have h6 := h.sinv.lenRel
-  simp only [PendOK, List.length_cons] at h1 h3 h4 h5 h6
-  exact ⟨h1.1, h1.2, by omega, by omega⟩
-
+/-- the head of `pending` is replayed -/
 theorem Inv0.pend {s : State} {r : Request} {rest : List Request} (h : Inv0 ⟨s, r :: rest⟩) :
     Inv0 ⟨(handleOutgoing s r).1, rest⟩ := by
-  have hnd : (pubIds rest).Nodup := by
-    have := h.pendNodup
-    cases r <;> simp_all [pubIds]
   have hw := h.window
   simp only [List.length_cons] at hw
+  have hsub : ∀ x ∈ rest, x ∈ r :: rest := fun x hx => List.mem_cons_of_mem _ hx
+  have hl : rest.length ≤ (r :: rest).length := by simp
   cases r with
   | publish p =>
-    obtain ⟨hq, h1, h2, ha, hslot, hinf, hne⟩ := h.pend_publish
-    rw [eff_publish_replay s p hq (by omega), eff_publishWithId_store s p ha hslot hinf]
-    apply Inv0.pushOut
-    exact h.store p hq h1 h2 ha hslot (by omega) (fun r hr => List.mem_cons_of_mem _ hr) hnd hne
+    have h1 := h.pendWF (.publish p) (by simp)
+    simp only [PendOK] at h1
+    obtain ⟨hq, h2, ha⟩ := h1
+    by_cases hid : p.pkid = 0
+    · exact h.publishFresh p hq hid ha (by omega) hl hsub
+    · rw [eff_publish_replay s p ha hq hid]
+      exact h.publishWithId p hq (by omega) h2 ha (by omega) hl hsub
   | pubrel i =>
-    obtain ⟨h1, h2, hlt, hinf⟩ := h.pend_pubrel
-    rw [eff_pubrel_replay s i (by omega) hlt hinf]
-    apply Inv0.pushOut
-    exact h.relSetInc i h1 h2 (by omega) (fun r hr => List.mem_cons_of_mem _ hr) hnd
+    have h1 := h.pendWF (.pubrel i) (by simp)
+    simp only [PendOK] at h1
+    have hlen := h.sinv.lenRel; have hml := h.maxLe
+    simp only at hlen hml
+    simp only [handleOutgoing, outgoingPubrel, pubrelWithId]
+    rw [if_neg (by omega), if_pos (by omega)]
+    split
+    · exact h.shrink hl hsub
+    · exact (h.relSetInc i h1.1 h1.2 (by omega) hsub).pushOut _
   | subscribe n => exact absurd (h.pendWF (.subscribe n) (by simp)) (by simp [PendOK])
   | unsubscribe => exact absurd (h.pendWF .unsubscribe (by simp)) (by simp [PendOK])
   | pingreq => exact absurd (h.pendWF .pingreq (by simp)) (by simp [PendOK])
@@ -482,73 +463,41 @@ theorem Inv0.pend {s : State} {r : Request} {rest : List Request} (h : Inv0 ⟨s
   | other => exact absurd (h.pendWF .other (by simp)) (by simp [PendOK])
 
 theorem outgoingPing_frame0 (s : State) : Frame0 s (outgoingPing s).1 := by
-  refine ⟨outgoingPing_frame s, ?_, ?_⟩
+  refine ⟨outgoingPing_frame s, ?_, ?_, ?_⟩
   all_goals (unfold outgoingPing; simp only; split <;> split <;> (try split) <;> simp [State.pushOut, State.pushEv])
 
 theorem Inv0.ping {s : State} {pd : List Request} (h : Inv0 ⟨s, pd⟩) : Inv0 ⟨(handleOutgoing s .pingreq).1, pd⟩ :=
   h.congr (outgoingPing_frame0 s)
 
-theorem Inv0.pushEv {s : State} {pd : List Request} (h : Inv0 ⟨s, pd⟩) (e : Event) : Inv0 ⟨s.pushEv e, pd⟩ :=
-  h.congr ⟨⟨rfl, rfl, rfl, rfl, rfl, rfl⟩, rfl, rfl⟩
-
-theorem Inv0.pubackCollision {s : State} {pd : List Request} (h : Inv0 ⟨s, pd⟩) (i : Nat)
-    (hs : s.outgoingPub[i]? = some none) (hw : s.inflight + 1 + pd.length ≤ s.maxInflight)
-    (hfree : ∀ q : Pub, .publish q ∈ pd → q.pkid ≠ i) :
-    Inv0 ⟨(pubackCollision s i).1, pd⟩ := by
-  unfold Client.pubackCollision
+/-- an id has just been freed: the publish parked on it is stored -/
+theorem Inv0.release {s : State} {pd : List Request} (h : Inv0 ⟨s, pd⟩) (i : Nat)
+    (hw : s.inflight + 1 + pd.length + colCount s ≤ s.maxInflight) : Inv0 ⟨(release s i).1, pd⟩ := by
+  unfold Client.release
   split
   · rename_i c hc
     split
-    · rename_i hci
-      obtain ⟨c1, c2, c3⟩ := h.colLe c hc
+    · obtain ⟨c1, c2, c3⟩ := h.colLe c hc
       have hq := h.sinv.colQos c hc
-      have h1 := (h.clearCol 0).store c hq c1 c2 c3 (by rw [hci]; exact hs) hw (fun r hr => hr) h.pendNodup
-        (by intro q hq'; rw [hci]; exact hfree q hq')
+      have hk : colCount s = 1 := by simp [colCount, hc]
+      have h1 := h.clearCol.store c hq c1 c2 c3 (pd' := pd) (by simp [colCount]; omega) (fun r hr => hr)
       exact h1.pushOut _
     · exact h
   · exact h
 
-theorem Inv0.handlePuback {s : State} {pd : List Request} (h : Inv0 ⟨s, pd⟩) (i r : Nat) :
-    Inv0 ⟨(handlePuback s i r).1, pd⟩ := by
+theorem Inv0.handlePuback {s : State} {pd : List Request} (h : Inv0 ⟨s, pd⟩) (i : Nat) :
+    Inv0 ⟨(handlePuback s i).1, pd⟩ := by
   unfold Client.handlePuback
   split
   · exact h
-  · rename_i slot hslot
-    have hi : i ≤ s.upperLimit := by
-      have := h.sinv.lenPub; have := getElem?_lt_of_some hslot; simp only at *; omega
-    have h1 : Inv0 ⟨(if s.ver = Version.v4 then { s with lastPuback := i } else s), pd⟩ := by
-      split
-      · exact h.setLastPuback i hi
-      · exact h
-    have hf : (if s.ver = Version.v4 then { s with lastPuback := i } else s).outgoingPub = s.outgoingPub ∧
-        (if s.ver = Version.v4 then { s with lastPuback := i } else s).inflight = s.inflight ∧
-        (if s.ver = Version.v4 then { s with lastPuback := i } else s).maxInflight = s.maxInflight := by
-      split <;> simp
-    generalize (if s.ver = Version.v4 then { s with lastPuback := i } else s) = s1 at h1 hf
-    obtain ⟨hf1, hf2, hf3⟩ := hf
-    simp only
+  · exact h
+  · rename_i x hslot
     split
-    · exact h1
-    · rename_i x
-      split
-      · exact h1
-      · rename_i hinf
-        have hslot1 : s1.outgoingPub[i]? = some (some x) := by rw [hf1]; exact hslot
-        have h2 := h1.free i x hslot1 true
-        simp only [if_true] at h2
-        split
-        · exact h2
-        · have hlt := getElem?_lt_of_some hslot1
-          have hw := h1.window
-          simp only at hw
-          apply h2.pubackCollision
-          · simp [hlt]
-          · simp only; omega
-          · intro q hq heq
-            have := h1.pendFree q hq
-            simp only at this
-            rw [heq, hslot1] at this
-            simp at this
+    · exact h
+    · have h2 := h.free i x hslot true
+      simp only [if_true] at h2
+      have hw := h.window
+      simp only at hw
+      exact h2.release i (by simp only [colCount] at *; omega)
 
 theorem Inv0.handlePubrec {s : State} {pd : List Request} (h : Inv0 ⟨s, pd⟩) (i r : Nat) :
     Inv0 ⟨(handlePubrec s i r).1, pd⟩ := by
@@ -559,95 +508,79 @@ theorem Inv0.handlePubrec {s : State} {pd : List Request} (h : Inv0 ⟨s, pd⟩)
   · rename_i x hslot
     simp only
     split
-    · have := h.free i x hslot false
-      simpa using this
+    · split
+      · have := h.free i x hslot false
+        simpa using this
+      · have h2 := h.free i x hslot true
+        simp only [if_true] at h2
+        have hw := h.window
+        simp only at hw
+        exact h2.release i (by simp only [colCount] at *; omega)
     · have hlt : i < s.outgoingRel.length := by
         have := h.sinv.lenPub; have := h.sinv.lenRel; have := getElem?_lt_of_some hslot; simp only at *; omega
       simp only [hlt]
       exact (h.moveToRel i x hslot).pushOut _
 
-theorem Inv0.handlePubrel {s : State} {pd : List Request} (h : Inv0 ⟨s, pd⟩) (i r : Nat) :
-    Inv0 ⟨(handlePubrel s i r).1, pd⟩ := by
+theorem Inv0.handlePubrel {s : State} {pd : List Request} (h : Inv0 ⟨s, pd⟩) (i : Nat) :
+    Inv0 ⟨(handlePubrel s i).1, pd⟩ := by
   unfold Client.handlePubrel
-  have h1 : Inv0 ⟨{ s with incomingPub := s.incomingPub.filter (· != i) }, pd⟩ :=
-    h.congr ⟨⟨rfl, rfl, rfl, rfl, rfl, rfl⟩, rfl, rfl⟩
   split
-  · simp only
-    split
-    · exact h1
-    · exact h1.pushOut _
+  · have h1 : Inv0 ⟨{ s with incomingPub := s.incomingPub.filter (· != i) }, pd⟩ :=
+      h.congr ⟨⟨rfl, rfl, rfl, rfl, rfl, rfl⟩, rfl, rfl, rfl⟩
+    exact h1.pushOut _
   · exact h
 
-theorem Inv0.handlePubcompV4 {s : State} {pd : List Request} (h : Inv0 ⟨s, pd⟩) (i : Nat) :
-    Inv0 ⟨(handlePubcompV4 s i).1, pd⟩ := by
-  unfold Client.handlePubcompV4
+theorem Inv0.handlePubcomp {s : State} {pd : List Request} (h : Inv0 ⟨s, pd⟩) (i : Nat) :
+    Inv0 ⟨(handlePubcomp s i).1, pd⟩ := by
+  unfold Client.handlePubcomp
   split
   · rename_i hc
+    have h1 := h.relClear i hc
     split
-    · have := h.relClear i hc false
-      simpa using this
-    · have h1 := h.relClear i hc true
-      simp only [if_true] at h1
-      simp only
-      split
-      · split
-        · exact (h1.clearCol 0).pushOut _
-        · exact h1
-      · exact h1
+    · rename_i hz
+      rw [show s.inflight - 1 = s.inflight by omega] at h1
+      exact h1
+    · have hw := h.window
+      simp only at hw
+      exact h1.release i (by simp only [colCount] at *; omega)
   · exact h
 
-theorem Inv0.pubcompTakeCollision {s : State} {pd : List Request} (h : Inv0 ⟨s, pd⟩) (i : Nat) :
-    Inv0 ⟨Client.pubcompTakeCollision s i, pd⟩ := by
-  unfold Client.pubcompTakeCollision
-  split
-  · split
-    · exact (h.clearCol 0).pushOut _
-    · exact h
-  · exact h
-
-theorem Inv0.handlePubcompV5 {s : State} {pd : List Request} (h : Inv0 ⟨s, pd⟩) (i r : Nat) :
-    Inv0 ⟨(handlePubcompV5 s i r).1, pd⟩ := by
-  unfold Client.handlePubcompV5
-  have h1 := h.pubcompTakeCollision i
-  generalize Client.pubcompTakeCollision s i = s1 at h1
-  simp only
-  split
-  · rename_i hc
-    split
-    · have := h1.relClear i hc false
-      simpa using this
-    · split
-      · have := h1.relClear i hc false
-        simpa using this
-      · have := h1.relClear i hc true
-        simpa using this
-  · exact h1
-
-theorem publishAlias_frame0 (s : State) (p : InPub) : Frame0 s (publishAlias s p) := by
-  refine ⟨publishAlias_frame s p, ?_, ?_⟩
-  all_goals (unfold publishAlias; split <;> (try split) <;> (try split) <;> (try split) <;> simp [State.pushOut, State.pushEv])
+theorem publishAlias_frame0 {s s1 : State} {p : InPub} (h : publishAlias s p = some s1) : Frame0 s s1 := by
+  refine ⟨publishAlias_frame h, ?_, ?_, ?_⟩
+  all_goals
+    unfold publishAlias at h
+    split at h
+    · cases h; rfl
+    · split at h
+      · cases h; rfl
+      · split at h
+        · cases h; split <;> rfl
+        · split at h
+          · cases h; rfl
+          · cases h
 
 theorem Inv0.handlePublish {s : State} {pd : List Request} (h : Inv0 ⟨s, pd⟩) (p : InPub) :
     Inv0 ⟨(handlePublish s p).1, pd⟩ := by
   unfold Client.handlePublish
-  have h1 := h.congr (publishAlias_frame0 s p)
-  generalize Client.publishAlias s p = s1 at h1
-  simp only
   split
-  · exact h1
-  · split
+  · exact h.pushOut _
+  · rename_i s1 hal
+    have h1 := h.congr (publishAlias_frame0 hal)
+    simp only
+    split
+    · exact h1
     · split
-      · exact h1.pushOut _
-      · exact h1
-    · have h2 : Inv0 ⟨(if s1.incomingPub.contains p.pkid = true then s1 else { s1 with incomingPub := p.pkid :: s1.incomingPub }), pd⟩ := by
-        split
+      · split
+        · exact h1.pushOut _
         · exact h1
-        · exact h1.congr ⟨⟨rfl, rfl, rfl, rfl, rfl, rfl⟩, rfl, rfl⟩
-      generalize (if s1.incomingPub.contains p.pkid = true then s1 else { s1 with incomingPub := p.pkid :: s1.incomingPub }) = s2 at h2
-      split
-      · exact h2.pushOut _
-      · exact h2
-
+      · have h2 : Inv0 ⟨(if s1.incomingPub.contains p.pkid = true then s1 else { s1 with incomingPub := p.pkid :: s1.incomingPub }), pd⟩ := by
+          split
+          · exact h1
+          · exact h1.congr ⟨⟨rfl, rfl, rfl, rfl, rfl, rfl⟩, rfl, rfl, rfl⟩
+        generalize (if s1.incomingPub.contains p.pkid = true then s1 else { s1 with incomingPub := p.pkid :: s1.incomingPub }) = s2 at h2
+        split
+        · exact h2.pushOut _
+        · exact h2
 
 theorem occ_zero_slot (l : List (Option Pub)) (h : occ l = 0) (i : Nat) (p : Pub) : l[i]? ≠ some (some p) := by
   intro hp; have := occ_pos_of_slot l i p hp; omega
@@ -655,10 +588,11 @@ theorem occ_zero_slot (l : List (Option Pub)) (h : occ l = 0) (i : Nat) (p : Pub
 theorem relCount_zero_bit (l : List Bool) (h : relCount l = 0) (i : Nat) : l[i]? ≠ some true := by
   intro hp; have := relCount_pos_of_bit l i hp; omega
 
-/-- a CONNACK that is not `unsafeConnack` -/
-theorem Inv0.handleConnack {s : State} {pd : List Request} (h : Inv0 ⟨s, pd⟩) (ok : Bool) (rm am : Option Nat)
+/-- a v5 CONNACK that is not `unsafeConnack` -/
+theorem Inv0.handleConnack {s : State} {pd : List Request} (h : Inv0 ⟨s, pd⟩) (hv : s.ver = .v5)
+    (ok : Bool) (rm am : Option Nat)
     (hsafe : ∀ m, ok = true → rm = some m →
-      s.lastPkid < min m s.upperLimit ∧
+      1 ≤ min m s.upperLimit ∧
         (s.maxInflight ≤ min m s.upperLimit ∨ (s.inflight = 0 ∧ pd = [] ∧ s.collision = none))) :
     Inv0 ⟨(handleConnack s ok rm am).1, pd⟩ := by
   unfold Client.handleConnack
@@ -670,20 +604,25 @@ theorem Inv0.handleConnack {s : State} {pd : List Request} (h : Inv0 ⟨s, pd⟩
     | none =>
       cases am with
       | none => exact h
-      | some a => exact h.congr ⟨⟨rfl, rfl, rfl, rfl, rfl, rfl⟩, rfl, rfl⟩
+      | some a => exact h.congr ⟨⟨rfl, rfl, rfl, rfl, rfl, rfl⟩, rfl, rfl, rfl⟩
     | some m =>
       have key : ∀ s1 : State, Inv0 ⟨s1, pd⟩ → Frame0 s s1 →
           Inv0 ⟨{ s1 with maxInflight := min m s1.upperLimit }, pd⟩ := by
         intro s1 h1 hf
-        obtain ⟨⟨f1, f2, f3, f4, f5, f6⟩, f7, f8⟩ := hf
+        obtain ⟨⟨f1, f2, f3, f4, f5, f6⟩, f7, f8, f9⟩ := hf
         obtain ⟨hs1, hs2⟩ := hsafe m hok' rfl
-        rw [← f3, ← f8] at hs1
-        obtain ⟨a1, a3, a4, a5, a6, a7, a8, a9, a10, a11, a12, a13⟩ := h1
+        rw [← f3] at hs1
+        have hv1 : s1.ver = .v5 := by rw [f9]; exact hv
+        obtain ⟨a1, a3, a4, a5, a6, a7, a8, a9, a10, a11⟩ := h1
         simp only at *
         have hml : min m s1.upperLimit ≤ s1.upperLimit := Nat.min_le_right _ _
+        have hpk : nextPkidBase { s1 with maxInflight := min m s1.upperLimit } < min m s1.upperLimit := by
+          simp only [nextPkidBase, hv1]; split <;> omega
         rcases hs2 with hge | ⟨hz, hpd, hcol⟩
         · rw [← f3, ← f7] at hge
-          refine ⟨a1.congr ⟨rfl, rfl, rfl, rfl, rfl, rfl⟩, by (try simp only); omega, hml, a5, hs1, by (try simp only); omega, ?_, ?_, ?_, ?_, a12, a13⟩
+          refine ⟨a1.congr ⟨rfl, rfl, rfl, rfl, rfl, rfl⟩, hs1, hml, a5, hpk, ?_, ?_, ?_, ?_, ?_⟩
+          · have : colCount { s1 with maxInflight := min m s1.upperLimit } = colCount s1 := rfl
+            rw [this]; (try simp only); omega
           · intro i p hp; have := a8 i p hp; exact ⟨this.1, by (try simp only); omega, this.2.2⟩
           · intro i hi; have := a9 i hi; exact ⟨this.1, by (try simp only); omega⟩
           · intro c hc; have := a10 c hc; exact ⟨this.1, by (try simp only); omega, this.2.2⟩
@@ -695,49 +634,45 @@ theorem Inv0.handleConnack {s : State} {pd : List Request} (h : Inv0 ⟨s, pd⟩
           have ho : occ s1.outgoingPub = 0 := by omega
           have hr : relCount s1.outgoingRel = 0 := by omega
           subst hpd
-          refine ⟨a1.congr ⟨rfl, rfl, rfl, rfl, rfl, rfl⟩, by (try simp only); omega, hml, a5, hs1, by simp; omega, ?_, ?_, ?_, ?_, a12, a13⟩
+          refine ⟨a1.congr ⟨rfl, rfl, rfl, rfl, rfl, rfl⟩, hs1, hml, a5, hpk, ?_, ?_, ?_, ?_, ?_⟩
+          · simp [colCount, hcol]; omega
           · intro i p hp; exact absurd hp (occ_zero_slot _ ho i p)
           · intro i hi; exact absurd ((relContains_eq _ i).mp hi) (relCount_zero_bit _ hr i)
           · intro c hc'; rw [hcol] at hc'; simp at hc'
           · intro r hr'; simp at hr'
       cases am with
       | none => exact key s h (Frame0.refl s)
-      | some a => exact key _ (h.congr ⟨⟨rfl, rfl, rfl, rfl, rfl, rfl⟩, rfl, rfl⟩) ⟨⟨rfl, rfl, rfl, rfl, rfl, rfl⟩, rfl, rfl⟩
+      | some a => exact key _ (h.congr ⟨⟨rfl, rfl, rfl, rfl, rfl, rfl⟩, rfl, rfl, rfl⟩) ⟨⟨rfl, rfl, rfl, rfl, rfl, rfl⟩, rfl, rfl, rfl⟩
 
 theorem Inv0.handleIncoming {s : State} {pd : List Request} (h : Inv0 ⟨s, pd⟩) (p : Incoming)
     (hn : ¬ unsafeConnack ⟨s, pd⟩ (.inc p)) : Inv0 ⟨(handleIncoming s p).1, pd⟩ := by
   unfold Client.handleIncoming
   have h0 := h.pushEv (.incoming p)
-  have hf : Frame0 s (s.pushEv (.incoming p)) := ⟨⟨rfl, rfl, rfl, rfl, rfl, rfl⟩, rfl, rfl⟩
-  have hver : (s.pushEv (.incoming p)).ver = s.ver := rfl
-  generalize s.pushEv (.incoming p) = s0 at h0 hf hver
+  have hf : Frame0 s (s.pushEv (.incoming p)) := ⟨⟨rfl, rfl, rfl, rfl, rfl, rfl⟩, rfl, rfl, rfl⟩
+  generalize s.pushEv (.incoming p) = s0 at h0 hf
   simp only
   cases p with
-  | pingresp => exact h0.congr ⟨⟨rfl, rfl, rfl, rfl, rfl, rfl⟩, rfl, rfl⟩
+  | pingresp => exact h0.congr ⟨⟨rfl, rfl, rfl, rfl, rfl, rfl⟩, rfl, rfl, rfl⟩
   | publish q => exact h0.handlePublish q
   | suback _ => exact h0
   | unsuback _ => exact h0
-  | puback i r => exact h0.handlePuback i r
+  | puback i r => exact h0.handlePuback i
   | pubrec i r => exact h0.handlePubrec i r
-  | pubrel i r => exact h0.handlePubrel i r
-  | pubcomp i r =>
-    simp only [Client.handlePubcomp]
-    split
-    · exact h0.handlePubcompV4 i
-    · exact h0.handlePubcompV5 i r
+  | pubrel i r => exact h0.handlePubrel i
+  | pubcomp i r => exact h0.handlePubcomp i
   | connack ok sp rm am =>
     simp only
     split
     · exact h0
     · rename_i hv
-      apply h0.handleConnack
+      apply h0.handleConnack hv
       intro m hok hrm
       subst hok; subst hrm
-      obtain ⟨⟨f1, f2, f3, f4, f5, f6⟩, f7, f8⟩ := hf
+      obtain ⟨⟨f1, f2, f3, f4, f5, f6⟩, f7, f8, f9⟩ := hf
       simp only [unsafeConnack] at hn
-      rw [hver] at hv
+      rw [f9] at hv
       have := Classical.not_not.mp (fun h' => hn ⟨hv, h'⟩)
-      rw [f3, f8, f7, f5, f4]
+      rw [f3, f7, f5, f4]
       exact this
   | disconnect _ => simp only; split <;> exact h0
   | connect => exact h0
@@ -748,62 +683,38 @@ theorem Inv0.handleIncoming {s : State} {pd : List Request} (h : Inv0 ⟨s, pd
 
 /-- a connection failure: `EventLoop::clean` -/
 theorem Inv0.fail {s : State} {pd : List Request} (h : Inv0 ⟨s, pd⟩) :
-    Inv0 ⟨cleanState s, pd ++ cleanRequests s⟩ := by
-  have hlen := length_cleanRequests s
-  have hmem := mem_cleanRequests s
-  have hnd := pubIds_cleanPubs_nodup h.sinv
+    Inv0 ⟨cleanState s, cleanRequests s ++ pd⟩ := by
+  have hlen := length_cleanRequests h.sinv
+  have hmem := mem_cleanRequests h.sinv
   have hsinv := h.sinv
-  obtain ⟨a1, a3, a4, a5, a6, a7, a8, a9, a10, a11, a12, a13⟩ := h
+  obtain ⟨a1, a3, a4, a5, a6, a7, a8, a9, a10, a11⟩ := h
   simp only at *
   have hc := a1.counter
-  refine ⟨a1.cleanState, a3, a4, a5, a6, ?_, ?_, ?_, a10, ?_, ?_, ?_⟩
-  · simp [cleanState, hlen]; omega
+  refine ⟨a1.cleanState, a3, a4, a5, a6, ?_, ?_, ?_, ?_, ?_⟩
+  · simp only [colCount] at a7
+    simp [cleanState, hlen, colCount]; omega
   · intro i p hp; simp [cleanState, List.getElem?_map] at hp
   · intro i hi; rw [relContains_eq] at hi; simp [cleanState, List.getElem?_map] at hi
+  · intro c hc'; simp [cleanState] at hc'
   · intro r hr
-    rcases List.mem_append.mp hr with hr | hr
+    rcases (List.mem_append.mp hr).symm with hr | hr
     · have := a11 r hr
       cases r <;> simp_all [PendOK, cleanState]
-    · rcases (hmem r).mp hr with ⟨p, rfl, hp⟩ | ⟨i, rfl, hi⟩
+    · rcases (hmem r).mp hr with ⟨p, rfl, hp⟩ | ⟨i, rfl, hi⟩ | ⟨c, hcol, rfl⟩
       · obtain ⟨j, hj⟩ := List.mem_iff_getElem?.mp hp
         have g1 := a8 j p hj
         have g2 := hsinv.slotId j p hj
         simp only [PendOK, cleanState]
-        exact ⟨g2.2, by omega, by omega, g1.2.2⟩
+        exact ⟨g2.2, by omega, g1.2.2⟩
       · have := a9 i hi
         simpa [PendOK, cleanState] using this
-  · rw [pubIds_append, pubIds_cleanRequests, List.nodup_append]
-    refine ⟨a12, hnd, ?_⟩
-    intro a ha b hb hab
-    subst hab
-    obtain ⟨p, hp, hpa⟩ := (mem_pubIds _ _).mp ha
-    obtain ⟨q, hq, hqa⟩ := (mem_pubIds _ _).mp hb
-    obtain ⟨q', hq', hq''⟩ := (mem_cleanPubs s _).mp hq
-    cases hq'
-    obtain ⟨j, hj⟩ := List.mem_iff_getElem?.mp hq''
-    have hj' := (hsinv.slotId j q hj).1
-    have := a13 p hp
-    rw [hpa, ← hqa, hj', hj] at this
-    simp at this
-  · intro p hp
-    have hle : p.pkid ≤ s.maxInflight := by
-      rcases List.mem_append.mp hp with hp | hp
-      · have := a11 _ hp; simp only [PendOK] at this; exact this.2.2.1
-      · rcases (hmem _).mp hp with ⟨q, hq, hq'⟩ | ⟨i, hi, _⟩
-        · cases hq
-          obtain ⟨j, hj⟩ := List.mem_iff_getElem?.mp hq'
-          have := a8 j p hj
-          have := hsinv.slotId j p hj
-          omega
-        · exact absurd hi (by simp)
-    have hl := hsinv.lenPub
-    have : p.pkid < s.outgoingPub.length := by omega
-    simp [cleanState, List.getElem?_map, List.getElem?_eq_getElem this]
+      · have g1 := a10 c hcol
+        have g2 := hsinv.colQos c hcol
+        simp only [PendOK, cleanState]
+        exact ⟨g2, by omega, g1.2.2⟩
 
-theorem Inv0.newSession {s : State} {pd : List Request} (h : Inv0 ⟨s, pd⟩) : Inv0 ⟨s, []⟩ := by
-  obtain ⟨a1, a3, a4, a5, a6, a7, a8, a9, a10, a11, a12, a13⟩ := h
-  simp only at *
-  exact ⟨a1, a3, a4, a5, a6, by simp; omega, a8, a9, a10, by simp, by simp [pubIds], by simp⟩
+theorem Inv0.newSession {s : State} {pd : List Request} (h : Inv0 ⟨s, pd⟩) : Inv0 ⟨s, []⟩ :=
+  h.shrink (by simp) (by simp)
 
 /-- `Inv0` is an invariant of the loop as long as no CONNACK lowers the limit under what is in use -/
 theorem Inv0.lstep {l : LState} (h : Inv0 l) (op : LOp) (hn : ¬ unsafeConnack l op) : Inv0 (lstep l op).1 := by
@@ -824,8 +735,11 @@ theorem Inv0.lstep {l : LState} (h : Inv0 l) (op : LOp) (hn : ¬ unsafeConnack l
     cases pd with
     | nil => exact h
     | cons r rest =>
-      simp only [lop?, lpending, sstepSt, List.tail_cons]
-      exact h.pend.drain
+      by_cases hr : pendingReady s (r :: rest) = true
+      · simp only [lop?, hr, if_true, lpending, sstepSt, List.tail_cons]
+        exact h.pend.drain
+      · simp only [lop?, hr]
+        exact h
   | ping => simp only [lop?, lpending, sstepSt]; exact h.ping.drain
   | inc p => simp only [lop?, lpending, sstepSt]; exact (h.handleIncoming p hn).drain
   | fail =>
